@@ -335,3 +335,22 @@ def main(ctx):
         "in outcome_classes), and repeat; production alphabet on real "
         "curves. All cases non-trivial; distinct by construction." % top)
     return rep
+
+
+def mixed_cases(ctx):
+    from ecdsa import curves as cv
+    groups = []
+    for names in catalog.same_length_groups():
+        items = []
+        for nm in names:
+            q = int(getattr(cv, nm).order)
+            for x in (1, q - 1, q // 2):
+                for hn in ("sha256", "sha1", "t9"):
+                    for retry in (0, 1):
+                        items.append(("genk", dict(q=q, x=x, hash=hn,
+                                                   digest=b"\x77" * 32,
+                                                   retry=retry, extra=b"")))
+                items.append(("real-sig", dict(curve=nm, d=x, digest=b"\x01" * 20,
+                                               hash="sha256", extra=b"")))
+        groups.append(items)
+    return groups
